@@ -133,6 +133,15 @@ CHECKS.update({
                 design='DESIGN.md section 9 (C11)', technique='TLA+ bit-pattern float codec spec + TLC round-trip theorems + exhaustive code tables replayed + TLC trace validation'),
 })
 
+CHECKS.update({
+    'C14': dict(text=("Model-based: ArraySpec.tla defines an Array as dtype + one bit buffer with Python-list operations on "
+                      "w-bit blocks; MC_Array explores the Array state machine exhaustively (52k-377k states) checking that "
+                      "decoding commutes with the list model, trailing bits are untouched and failures change nothing; seeded "
+                      "random programs over 36 dtypes, all list operations, integer element-wise operators (recomputed by TLC), "
+                      "struct-code dtypes and array.array interchange are validated event by event on the real Array."),
+                design='DESIGN.md section 9 (C14)', technique='TLA+ Array state machine (TLC exhaustive) + TLC trace validation of random list/operator programs'),
+})
+
 NOT_YET = {
 }
 
